@@ -152,6 +152,23 @@ func serverCatalogue(c *core.Ctx, kr *keyring) []sCase {
 		s.Sub, s.Tok.Pl = "bob@a@b", strings.Replace(stdPl, stdSub, "bob@a@b", 1)
 		add(s)
 	}
+	// --- key locations taken from the environment instead of the config
+	{
+		w := kr.w0
+		w.EnvPaths = true
+		s := base("honest-envpaths-named")
+		s.W = w
+		add(s)
+		s = base("honest-envpaths-pool")
+		s.W, s.Tok.Hdr, s.Tok.SignKey = w, hdrFor("POOL"), kr.poolSign()
+		add(s)
+		s = base("envpaths-key-other")
+		s.W, s.Tok.SignKey, s.Expect = w, kr.evil, 0
+		add(s)
+		s = base("envpaths-kid-traversal")
+		s.W, s.Tok.Hdr, s.Expect = w, hdrFor("../keys/k1"), 0
+		add(s)
+	}
 	// --- long keys: every byte of the key the server holds enters the signature
 	for _, n := range longKeyLens {
 		if n == 1024 && c.Quick() {
@@ -409,6 +426,7 @@ func serverCatalogue(c *core.Ctx, kr *keyring) []sCase {
 	for _, n := range []int{1, 8} {
 		m3(fmt.Sprintf("trail%d", n), mut{"trail", n}, 0)
 	}
+	m3("none", mut{"none", 0}, 0)
 	m3("trail-frame", mut{"trail-frame", 0}, 1) // a further frame after the complete message is never read
 	m3("no-eom", mut{"no-eom", 0}, 0)
 	for _, n := range []int{0, 8, 30, -1, -20, -21, -30} {
@@ -487,6 +505,14 @@ func clientCatalogue(c *core.Ctx, kr *keyring) []cCase {
 		return s
 	}
 	add(base("honest"))
+	{
+		s := base("honest-idtokens")
+		s.IDTokens = true
+		add(s)
+		s = base("idtokens-mac-empty")
+		s.IDTokens, s.M2, s.Expect = true, mut{"mac-empty", 0}, 0
+		add(s)
+	}
 	m2 := func(name string, m mut, exp int) {
 		s := base("m2-" + name)
 		s.M2, s.Expect = m, exp
@@ -522,6 +548,7 @@ func clientCatalogue(c *core.Ctx, kr *keyring) []cCase {
 	for a := 0; a < 3; a++ {
 		m2(fmt.Sprintf("cid%d", a), mut{"cid", a}, 0)
 	}
+	m2("none", mut{"none", 0}, 0)
 	m2("sid-any", mut{"sid-any", 0}, 1)
 	m2("sid-swap", mut{"sid-swap", 0}, 0)
 	for _, d := range []int{-1, 1} {
@@ -589,22 +616,51 @@ func gen(c *core.Ctx) error {
 	c.Assume("encoding/json and the JSON number -> float64 -> int64 conversion (amd64) are parameters of the model, supplied per case")
 	c.Assume("HKDF-SHA256 / HMAC-SHA256 / HMAC-SHA1 behave as the ideal functions of Lib/SymC11.v; their use (inputs, salts, order) is checked against an independent reference")
 	kr := newKeyring(c)
+	// Freshness oracle: the nonce the real code draws for an OK message (RB in the
+	// server role, RA in the client role) is AUTH_PW_KEY_LEN random bytes, never
+	// seen before in this run in either role (so a recorded exchange cannot be
+	// replayed), not constant, and not the peer's nonce echoed back.
 	seenNonce := map[string]string{}
-	fresh := func(role, name string, nonce []byte) []string {
-		// the local nonce of every OK message must be new (256 random bytes)
+	fresh := func(role, name string, nonce, peerNonce []byte) []string {
 		if len(nonce) == 0 {
 			return nil
 		}
+		c.OracleCheck()
+		c.Count("oracle:nonce-freshness")
+		var out []string
+		if len(nonce) != security.AUTH_PW_KEY_LEN {
+			out = append(out, fmt.Sprintf("nonce-length %d", len(nonce)))
+		}
+		distinct := map[byte]bool{}
+		for _, b := range nonce {
+			distinct[b] = true
+		}
+		if len(distinct) < 16 {
+			out = append(out, "nonce-not-random (fewer than 16 distinct byte values)")
+		}
+		if string(nonce) == string(peerNonce) {
+			out = append(out, "nonce-equals-peer-nonce")
+		}
 		if prev, dup := seenNonce[string(nonce)]; dup {
-			return []string{"nonce-not-fresh (same as in " + prev + ")"}
+			out = append(out, "nonce-not-fresh (same as in "+prev+")")
 		}
 		seenNonce[string(nonce)] = role + "/" + name
-		return nil
+		return out
 	}
-	for _, sc := range serverCatalogue(c, kr) {
-		sc := sc
+	scat := serverCatalogue(c, kr)
+	for i := 0; i < len(scat); i++ {
+		sc := scat[i]
 		r := runS(&sc, kr.evil)
-		r.fails = append(r.fails, fresh("server", sc.Name, r.rb)...)
+		if sc.Name == "honest" && r.obs.Accept {
+			// replay the recorded exchange (both client messages, or message 3 only)
+			// against a new server run: its nonce is new, so it must be refused
+			a := sc
+			a.Name, a.ReplayPre, a.ReplayPost, a.Expect = "replay-recorded-exchange", r.pre, r.obs.Post, 0
+			b := sc
+			b.Name, b.ReplayPost, b.Expect = "replay-recorded-m3", r.obs.Post, 0
+			scat = append(scat, a, b)
+		}
+		r.fails = append(r.fails, fresh("server", sc.Name, r.rb, parse1(r.pre).RA)...)
 		doc := replayDoc{Role: "server", Evil: kr.evil, S: &sc}
 		if sc.NoModel {
 			c.Evaluated(1)
@@ -631,10 +687,18 @@ func gen(c *core.Ctx) error {
 			c.OracleFail("server:"+f, fmt.Sprintf("server role, case %s: %s (accept=%v user=%q)", sc.Name, f, r.obs.Accept, r.obs.User), doc)
 		}
 	}
-	for _, cc := range clientCatalogue(c, kr) {
-		cc := cc
+	ccat := clientCatalogue(c, kr)
+	for i := 0; i < len(ccat); i++ {
+		cc := ccat[i]
 		r := runC(&cc, kr.evil)
-		r.fails = append(r.fails, fresh("client", cc.Name, r.ra)...)
+		if cc.Name == "honest" && r.obs.Accept {
+			// the same client (same token) is shown the recorded message 2 again
+			a := cc
+			a.Name, a.ReplayM2, a.Expect = "replay-recorded-m2", r.obs.Script, 0
+			a.Tok.Fixed = r.now
+			ccat = append(ccat, a)
+		}
+		r.fails = append(r.fails, fresh("client", cc.Name, r.ra, parse2(r.obs.Script).RB)...)
 		doc := replayDoc{Role: "client", Evil: kr.evil, C: &cc}
 		if cc.NoModel {
 			c.Evaluated(1)
